@@ -128,10 +128,10 @@ func (c *Ctx) GetStaged() *Staged {
 			}
 		}
 		ks := []int{2}
-		acts := []int{0, 2}
+		acts := []int{0, 2, 3}
 		if c.Tier == "thorough" {
 			ks = []int{1, 2, 3}
-			acts = []int{0, 1, 2}
+			acts = []int{0, 1, 2, 3}
 		}
 		for _, k := range ks {
 			for _, a := range acts {
@@ -248,7 +248,9 @@ var actionSets = [][]string{
 	{"", "$$ = $1", "$$ = $1 + $2", "{ $$ = $2 }"},
 	{"$$ = $1 * 2", "", "if $1 > 0 { $$ = $1 }", "$$ = $3"},
 	// adversarial representatives: $n / $$ mentioned only where Go does not read them (comment, string literal)
-	{"/* $1 */ $$ = 0", "$$ = 0 // $1 and $2", "_ = \"$1 $$\"", "/* $$ */"},
+	{"/* $1 */ $$ = 0", "_ = \"$1 $$\"", "$$ = 0 // $1 and $2", "/* $$ */"},
+	// multi-digit references: $10 is symbol 10, not symbol 1 followed by a 0
+	{"$$ = $10", "$$ = $1 + $20", "$$ = $12 + $100"},
 }
 
 // minimum unrolling per loop, with the reason (DESIGN.md §2.3)
